@@ -1360,6 +1360,10 @@ class H2Connection:
         if acknowledged_size < 0:
             raise ValueError("Cannot acknowledge negative data")
 
+        # This may emit WINDOW_UPDATE frames, which a closed connection must
+        # not do any more.
+        self.state_machine.process_input(ConnectionInputs.SEND_WINDOW_UPDATE)
+
         frames = []
 
         # Look the stream up first: for a stream ID that was never used this
